@@ -53,12 +53,12 @@ theorem send_every_run :
 /-- Router.route on every path -/
 def routeOk (t : List Act) : Bool :=
   let handled := cnt (.call "Handler.HandlePacket") t
-  let given := cnt (.chsend "route.result") t
+  let given := cnt (.chsend "IQResultRoute.result") t
   let refused := cnt (.call "iqNotImplemented") t
   handled + given + refused ≤ 1 &&
   -- the hand-over: send on the channel, close it, return - nothing else afterwards
-  (given == 0 || (t.dropWhile (· != .chsend "route.result")) ==
-      [.chsend "route.result", .chclose "route.result", .call "return "]) &&
+  (given == 0 || (t.dropWhile (· != .chsend "IQResultRoute.result")) ==
+      [.chsend "IQResultRoute.result", .chclose "IQResultRoute.result", .call "return "]) &&
   -- the handler's path returns right after the handler
   (handled == 0 || (t.dropWhile (· != .call "Handler.HandlePacket")).length == 2)
 
@@ -73,8 +73,8 @@ def sendIQOk (t : List Act) : Bool :=
   -- registered (the locked section) before the send
   noneAfter (· == .call "Sender.Send") (· == lk) t && cnt lk t == 1 && cnt (.call "Sender.Send") t == 1 &&
   -- a failed send: unregister, return the error, no clean-up goroutine; otherwise the goroutine and the channel
-  (if t.contains (.call "Router.removeIQResultRoute") then !(t.any isSpawn) && retLabel t == "nil, err"
-   else cnt (.spawn "func literal") t == 1 && retLabel t == "route.result, nil")
+  (if t.contains (.call "Router.removeIQResultRoute") then !(t.any isSpawn) && retLabel t == "nil, error"
+   else cnt (.spawn "func literal") t == 1 && retLabel t == "IQResultRoute.result, nil")
 
 theorem sendiq_every_path : allTraces (get "Router.sendIQ") sendIQOk = true := by decide +kernel
 
@@ -83,16 +83,16 @@ theorem sendiq_every_run : ∀ l t, Runs traceSem (get "Router.sendIQ") [] (.ret
 
 /-- XMPPTransport.StartTLS on every path -/
 def startTLSOk (t : List Act) : Bool :=
-  let secure : Act := .call "set t.isSecure=true"
+  let secure : Act := .call "set XMPPTransport.isSecure=true"
   let ok := retLabel t == "nil"
   -- the flag is set exactly on the paths that return nil, and there it is the last act
   (t.contains secure == ok) &&
   (!ok || (t.dropWhile (· != secure)).length == 2) &&
   -- after the handshake; the flag is cleared once the connection is switched, before anything can fail
-  (!ok || (t.contains (.call "Conn.Handshake") && t.contains (.call "set t.isSecure=false"))) &&
+  (!ok || (t.contains (.call "Conn.Handshake") && t.contains (.call "set XMPPTransport.isSecure=false"))) &&
   noneAfter (· == secure) (fun a => a == .call "Conn.Handshake" || a == .call "Conn.VerifyHostname") t &&
   -- every error return is the error of the handshake or of the host-name check, handed on as it is
-  (ok || retLabel t == "err")
+  (ok || retLabel t == "error")
 
 theorem starttls_every_path : allTraces (get "XMPPTransport.StartTLS") startTLSOk = true := by decide +kernel
 
@@ -104,16 +104,16 @@ check directly under that branch and nowhere is the flag set in front of it -/
 theorem starttls_checks_hostname :
     (get "XMPPTransport.StartTLS").mentions (.call "Conn.VerifyHostname") = true ∧
     allTraces (get "XMPPTransport.StartTLS") (fun t =>
-      !t.contains (.call "Conn.VerifyHostname") || noneAfter (· == .call "set t.isSecure=true") (· == .call "Conn.VerifyHostname") t) = true := by
+      !t.contains (.call "Conn.VerifyHostname") || noneAfter (· == .call "set XMPPTransport.isSecure=true") (· == .call "Conn.VerifyHostname") t) = true := by
   decide +kernel
 
 /-- XMPPTransport.Connect: the flag is cleared first, before the dial, on every path -/
 theorem connect_clears_flag :
     allTraces (get "XMPPTransport.Connect") (fun t =>
-      t.head? == some (.call "set t.isSecure=false") && !t.contains (.call "set t.isSecure=true") &&
+      t.head? == some (.call "set XMPPTransport.isSecure=false") && !t.contains (.call "set XMPPTransport.isSecure=true") &&
       cnt (.call "net.DialTimeout") t == 1) = true := by decide +kernel
 
-example : startTLSOk [.call "tls.Client", .call "Conn.Handshake", .call "set t.isSecure=true", .call "Conn.VerifyHostname",
+example : startTLSOk [.call "tls.Client", .call "Conn.Handshake", .call "set XMPPTransport.isSecure=true", .call "Conn.VerifyHostname",
     .call "return err"] = false := by decide +kernel
 example : routeOk [.call "Router.Match", .call "Handler.HandlePacket", .call "iqNotImplemented", .call "return "] = false := by decide +kernel
 example : clientSendOk [.call "xml.Marshal", .write, .write, .call "return nil"] = false := by decide +kernel
